@@ -219,6 +219,7 @@ type Tmpl struct {
 	Decl  bool   // produces a top-level declaration instead of statements
 	OnlyD bool   // only meaningful inside the declaring package
 	FreeT bool   // contains a TONL-FREE type mention (poisons the once-per-file group)
+	NoImp bool   // needs nothing from the declaring package but a value (usable in a file that does not import it)
 	Make  func(b *B, t *Type, env *Env) []*Node
 }
 
@@ -229,9 +230,13 @@ type Env struct {
 	Helper *Func // a function of t's package (any annotation mix)
 	Reset  *Func // a method of t (any annotation mix), pointer receiver
 	Val    *Func // a method with value receiver
+	Getter *Func // non-nil: values are obtained through this package-local helper (the file need not import the type's package)
 }
 
 func callNew(t *Type, env *Env) (string, *Use) {
+	if env.Getter != nil {
+		return q(env.Getter.Pkg) + env.Getter.Name + "()", &Use{Kind: UFuncRef, Fn: env.Getter, Call: true}
+	}
 	return q(t.Pkg) + env.New.Name + "()", &Use{Kind: UFuncRef, Fn: env.New, Call: true}
 }
 
@@ -245,7 +250,7 @@ func immTemplates() []Tmpl {
 		return x, b.stmt(x+" := "+c, u)
 	}
 	simple := func(name string, kind UseKind, field string, text func(x string) string, fr bool, feat string) Tmpl {
-		return Tmpl{Name: name, Cat: IMM, Kind: "struct", Make: func(b *B, t *Type, env *Env) []*Node {
+		return Tmpl{Name: name, Cat: IMM, Kind: "struct", NoImp: true, Make: func(b *B, t *Type, env *Env) []*Node {
 			x, a := acquire(b, t, env)
 			u := useT(kind, t, field)
 			if fr {
@@ -375,17 +380,17 @@ func useTemplates() []Tmpl {
 		x := b.v()
 		return []*Node{b.stmt(x+" := "+q(t.Pkg)+env.Helper.Name, &Use{Kind: UFuncRef, Fn: env.Helper}), b.stmt(x + "()")}
 	}})
-	ts = append(ts, Tmpl{Name: "method-call", Cat: TONL, Make: func(b *B, t *Type, env *Env) []*Node {
+	ts = append(ts, Tmpl{Name: "method-call", Cat: TONL, NoImp: true, Make: func(b *B, t *Type, env *Env) []*Node {
 		x := b.v()
 		c, u := callNew(t, env)
 		return []*Node{b.stmt(x+" := "+c, u), b.stmt(x+"."+env.Reset.Name+"()", &Use{Kind: UMethodRef, Fn: env.Reset, Call: true})}
 	}})
-	ts = append(ts, Tmpl{Name: "method-call-value-recv", Cat: TONL, Make: func(b *B, t *Type, env *Env) []*Node {
+	ts = append(ts, Tmpl{Name: "method-call-value-recv", Cat: TONL, NoImp: true, Make: func(b *B, t *Type, env *Env) []*Node {
 		x := b.v()
 		c, u := callNew(t, env)
 		return []*Node{b.stmt(x+" := *"+c, u), b.stmt(x+"."+env.Val.Name+"()", &Use{Kind: UMethodRef, Fn: env.Val, Call: true})}
 	}})
-	ts = append(ts, Tmpl{Name: "method-value", Cat: PKGO, Make: func(b *B, t *Type, env *Env) []*Node {
+	ts = append(ts, Tmpl{Name: "method-value", Cat: PKGO, NoImp: true, Make: func(b *B, t *Type, env *Env) []*Node {
 		x, y := b.v(), b.v()
 		c, u := callNew(t, env)
 		return []*Node{b.stmt(x+" := "+c, u), b.stmt(y+" := "+x+"."+env.Reset.Name, &Use{Kind: UMethodRef, Fn: env.Reset}), b.stmt(y + "()")}
